@@ -290,29 +290,30 @@ Proof.
 Qed.
 
 Lemma init_fold_wf : forall cfg names d procs j,
-    dealer_wf lk0 d -> d_idgen d <= j -> cr_nonempty (d_callee_regs d) -> d_calls d = [] ->
+    dealer_wf lk0 d -> d_idgen d <= j -> cr_nonempty (d_callee_regs d) -> d_calls d = [] -> regs_pos d ->
     j + N.of_nat (List.length names) <= max_idN ->
     let d' := fst (fold_left (init_f cfg) names (d, procs)) in
     dealer_wf lk0 d' /\ d_idgen d' <= j + N.of_nat (List.length names) /\
-    cr_nonempty (d_callee_regs d') /\ d_calls d' = [].
+    cr_nonempty (d_callee_regs d') /\ d_calls d' = [] /\ regs_pos d'.
 Proof.
-  intros cfg names; induction names as [|name names IH]; intros d procs j Wd Hj Hc Hcalls Hb; cbn [fold_left List.length] in *.
-  - cbn [fst]. split; [exact Wd|]. split; [cbn; lia|]. split; [exact Hc|exact Hcalls].
+  intros cfg names; induction names as [|name names IH]; intros d procs j Wd Hj Hc Hcalls Hpos Hb; cbn [fold_left List.length] in *.
+  - cbn [fst]. split; [exact Wd|]. split; [cbn; lia|]. split; [exact Hc|]. split; [exact Hcalls|exact Hpos].
   - assert (Hd : d_idgen d < max_idN) by lia.
     assert (Ha : attached lk0 (s_id meta_session)) by (unfold attached, lk0; cbn; discriminate).
     pose proof (register_wf cfg lk0 d meta_session (N.of_nat (List.length procs) + 1) [("disclose_caller", VBool true)] name Wd Ha Hd) as W1.
     pose proof (register_idgen cfg d meta_session (N.of_nat (List.length procs) + 1) [("disclose_caller", VBool true)] name Hd) as I1.
     pose proof (register_cr_nonempty cfg d meta_session (N.of_nat (List.length procs) + 1) [("disclose_caller", VBool true)] name Hc) as C1.
     pose proof (register_frame cfg d meta_session (N.of_nat (List.length procs) + 1) [("disclose_caller", VBool true)] name) as F1.
-    rewrite <- (init_f_fst cfg d procs name) in W1, I1, C1, F1.
+    pose proof (regs_pos_register cfg d meta_session (N.of_nat (List.length procs) + 1) [("disclose_caller", VBool true)] name Hpos (wf_regs _ _ Wd) Hd) as P1.
+    rewrite <- (init_f_fst cfg d procs name) in W1, I1, C1, F1, P1.
     destruct (init_f cfg (d, procs) name) as [d1 procs']. cbn [fst] in *.
-    destruct (IH d1 procs' (j + 1)) as (A & B & C & D); auto; try lia; try congruence.
-    cbv zeta. split; [exact A|]. split; [lia|]. split; [exact C|exact D].
+    destruct (IH d1 procs' (j + 1)) as (A & B & C & D & E); auto; try lia; try congruence.
+    cbv zeta. split; [exact A|]. split; [lia|]. split; [exact C|]. split; [exact D|exact E].
 Qed.
 
-Lemma meta_regs_same_init : forall d, dealer_wf lk0 d -> meta_regs_same d d.
+Lemma meta_regs_same_init : forall d, dealer_wf lk0 d -> regs_pos d -> meta_regs_same d d.
 Proof.
-  intros d W. split.
+  intros d W Pos. split; [|split; [|exact Pos]].
   - intros id rg H. exists rg. repeat split; auto.
     destruct (rw_callees _ (wf_regs _ _ W) id rg H) as (Hne & _).
     destruct (reg_callees rg) as [|c l] eqn:E; [congruence|].
@@ -341,9 +342,10 @@ Proof.
   destruct (preinit_wf_gen (c_hist cfg) empty_broker empty_wf) as [Wb Ib]; [cbn; lia|].
   assert (Cn : cr_nonempty (d_callee_regs empty_dealer)) by (intros x ids; discriminate).
   assert (Hm : 0 + N.of_nat (List.length (meta_proc_names cfg)) <= max_idN) by lia.
+  assert (Pn : regs_pos empty_dealer) by (intros x rg; discriminate).
   pose proof (init_fold_wf cfg (meta_proc_names cfg) empty_dealer [] 0 (empty_dealer_wf lk0)
-                           (N.le_refl 0) Cn eq_refl Hm) as Fd.
-  cbv zeta in Fd. destruct Fd as (Wd & Id & Cd & Ed).
+                           (N.le_refl 0) Cn eq_refl Pn Hm) as Fd.
+  cbv zeta in Fd. destruct Fd as (Wd & Id & Cd & Ed & Pd).
   change (fold_left _ (meta_proc_names cfg) (empty_dealer, [])) with (fold_left (init_f cfg) (meta_proc_names cfg) (empty_dealer, [])).
   destruct (fold_left (init_f cfg) (meta_proc_names cfg) (empty_dealer, [])) as [d procs] eqn:Efold. cbn [fst] in *.
   split.
@@ -354,7 +356,7 @@ Proof.
     + constructor.
     + intros c x. rewrite Ed. discriminate.
     + apply hist_same_refl.
-    + unfold dealer0. rewrite Efold. cbn [fst]. apply (meta_regs_same_init d Wd).
+    + unfold dealer0. rewrite Efold. cbn [fst]. apply (meta_regs_same_init d Wd Pd).
   - unfold ids_below, k0. cbn [r_broker r_dealer]. cbn in Ib. split; [lia|]. split; [lia|].
     intros x s E. unfold lookup in E. cbn [r_meta r_clients] in E.
     destruct (N.eqb x meta_id); [inversion E; cbn; lia|discriminate].
